@@ -21,7 +21,7 @@ HARD = ["del_file", "truncate", "extend", "insert_boundary", "insert_data", "rem
 COORD = ["bounds_shift"]
 # kinds that tend to survive validation (C20's domain)
 SOFT = ["off_prefix", "ws_cellh", "ws_header", "fab_prefix_text", "swap_pairs", "minmax_edit", "payload_flip",
-        "fod_other_samebox", "swap_fod_only"]
+        "fod_other_samebox", "swap_fod_only", "fod_path", "level_time"]
 
 C04_CLASS = {"del_file": "missing-file", "del_cellh": "level-header", "truncate": "layout", "extend": "layout",
              "insert_boundary": "layout", "insert_data": "layout", "remove_data": "layout", "fab_shape": "layout",
@@ -250,6 +250,18 @@ def _apply(p, op):
         def f(t):
             i = 2 + inf["nf"] + 3 + (amt % 2)      # geo_lo / geo_hi lines
             t[i] = "  " + t[i].replace(" ", "   ")
+        _rw(os.path.join(p, "Header"), f)
+    elif k == "fod_path":
+        # the recorded file name spelled with a redundant path component
+        _rw(ch, lambda t: t.__setitem__(io_, t[io_].replace("Cell_D_", ["./Cell_D_", f"../Level_{l}/Cell_D_", ".//Cell_D_"][amt % 3], 1)))
+    elif k == "level_time":
+        def f(t):
+            i = 2 + inf["nf"] + 8 + (inf["maxlev"] + 1) + 2
+            for ll in range(l):
+                i += 2 + int(t[i].split()[1]) * nd + 1
+            toks = t[i].split()
+            toks[2] = ["0.0", "1e300", "-7.5", "nan"][amt % 4]
+            t[i] = " ".join(toks)
         _rw(os.path.join(p, "Header"), f)
     elif k == "swap_pairs":
         if nb < 2:
